@@ -196,9 +196,11 @@ where
         Ok(trailer)
     }
     pub fn scan(&self) -> impl Iterator<Item = Result<ScanItem>> + '_ {
-        let xref_offset = self.backend.locate_xref_offset().unwrap();
-        let slice = self.backend.read(self.start_offset .. xref_offset).unwrap();
-        let mut lexer = Lexer::with_offset(slice, 0);
+        let slice = self.backend.locate_xref_offset().ok()
+            .and_then(|xref_offset| self.start_offset.checked_add(xref_offset))
+            .and_then(|end| self.backend.read(self.start_offset .. end).ok())
+            .unwrap_or(&[]);
+        let mut lexer = Lexer::with_offset(slice, self.start_offset);
         
         fn skip_xref(lexer: &mut Lexer) -> Result<()> {
             while lexer.next()? != "trailer" {
